@@ -12,19 +12,19 @@ import (
 var psKeys = []string{"a.n", "a.s", "b.t", "b.n", "acc.owner", "tm.event"}
 
 var (
-	poolInts   = []string{"0", "1", "2", "3", "5", "7", "10", "42", "100"}
+	poolInts = []string{"0", "1", "2", "3", "5", "7", "10", "42", "100"}
 	// integers whose neighbours differ by 1 where binary floating point no longer can tell them apart (2^53, amounts
 	// with 18 decimals, the top of the 64-bit range) and one beyond that range
 	poolBigInts = []string{"9007199254740992", "9007199254740993", "9007199254740994", "999999999999999999", "1000000000000000000",
 		"1000000000000000001", "9223372036854775806", "9223372036854775807", "9223372036854775808"}
-	poolDecs   = []string{"0.5", "2.5", "7.0", "10.25"}
-	poolTexts  = []string{"alice", "bob", "Tx", "NewBlock", "x/y", "a b", "", "al", "carol/7", "Tom"}
-	poolDates  = []string{"2019-12-31", "2020-01-01", "2021-06-15"}
+	poolDecs  = []string{"0.5", "2.5", "7.0", "10.25"}
+	poolTexts = []string{"alice", "bob", "Tx", "NewBlock", "x/y", "a b", "", "al", "carol/7", "Tom"}
+	poolDates = []string{"2019-12-31", "2020-01-01", "2021-06-15"}
 	// instants (UTC seconds); every use renders them anew with a drawn UTC offset (and, in event values, a drawn
 	// precision), so that one instant meets itself in several spellings, and dates meet their own midnight
 	poolInstants = []string{"2020-01-01T00:00:00Z", "2021-06-15T10:30:00Z", "2019-12-31T23:59:59Z", "2021-06-15T00:00:00Z"}
 	poolOffsets  = []int{0, 0, 120, -300, 330, -60}
-	poolSubstr = []string{"al", "o", "/", " ", "x", "Block", ""}
+	poolSubstr   = []string{"al", "o", "/", " ", "x", "Block", ""}
 )
 
 // what a key usually carries; with probability ~1/5 it carries something else (that is where ill-typed
@@ -79,6 +79,9 @@ func genIntText(t *rapid.T, value bool) string {
 			return rapid.SampledFrom(poolBigInts).Draw(t, "vbig")
 		}
 		return rapid.SampledFrom(poolBigInts[:8]).Draw(t, "litbig")
+	}
+	if value && rapid.IntRange(0, 7).Draw(t, "signed") == 0 {
+		return rapid.SampledFrom([]string{"-5", "-1", "-100", "5.9", "5.5", "-2.5"}).Draw(t, "vsigned")
 	}
 	return rapid.SampledFrom(poolInts).Draw(t, "vint")
 }
